@@ -40,7 +40,7 @@ def c06_mir(proto, body):
     """body: dict(kind in plain|pressure|alloca|fppress|call, va_alloca bool, alloca_n int)"""
     offs, _ = G.layout(proto)
     L = ['m: module', 'hp: proto i64, i64:a, i64:b',
-         'pp: proto i64, i64:a, i64:b, i64:c, i64:d, i64:e, i64:f, i64:g, i64:h, d:i',
+         'pp: proto i64, i64:a, i64:b, i64:c, i64:d, i64:e, i64:f, i64:g, d:i',
          'import outs, vals, helper, probe', 'export f', func_header(proto)]
     loc = ['i64:o', 'i64:v', 'i64:t', 'i64:dst', 'i64:va', 'i64:s', 'i64:h', 'i64:ap', 'i64:am', 'i64:an', 'i64:ap2', 'd:dz']
     B = ['mov o, outs', 'mov v, vals']
@@ -110,7 +110,7 @@ def c06_mir(proto, body):
         B.append('call hp, helper, h, p0, p1')
         if kind == 'call':
             B.append('dmov dz, d:%d(v)' % PO)
-            B.append('call pp, probe, s, p2, p3, p4, p5, p6, p7, p8, p9, dz')
+            B.append('call pp, probe, s, p2, p3, p4, p5, p6, p7, p8, dz')
         B.append('mov s, h')
         for k in range(NPRESS):
             B.append('add s, s, p%d' % k)
@@ -205,10 +205,15 @@ def tramp_image(proto, m, vals, body, rng_words, vals_addr):
     stack = int(m['stack'])
     for k in range(0, stack, 8):
         img[256 + k:256 + k + 8] = rng_words[(22 + k // 8) % len(rng_words)].to_bytes(8, 'little')
-    flat = []
-    for t, b in zip(proto['args'], vals):
-        flat.append((t, b))
-    for (loc, v, ob) in m['img']:
+    # bytes the caller defines per eightbyte: for narrow integers only the bytes of the type itself
+    # (the psABI leaves the rest of the register/slot unspecified; MIR narrows in the callee)
+    width = []
+    for t in proto['args']:
+        if t in G.ITYS:
+            width.append({'i8': 1, 'u8': 1, 'i16': 2, 'u16': 2, 'i32': 4, 'u32': 4}.get(t, 8))
+        else:
+            width += [None] * G.nwords(t)
+    for (loc, v, ob), wd in zip(m['img'], width):
         w = bytes.fromhex(v)[::-1]
         k, n = loc[0], int(loc[1:])
         if k == 'G':
@@ -217,9 +222,8 @@ def tramp_image(proto, m, vals, body, rng_words, vals_addr):
             pos = 64 + 16 * n
         else:
             pos = 256 + n
-        # bytes beyond the observable part keep junk (upper half of narrow ints etc.), except that
-        # narrow integers are extended to 32 bits as every real compiler does
-        img[pos:pos + ob] = w[:ob]
+        nb = wd if wd is not None else ob
+        img[pos:pos + nb] = w[:nb]
     img[48:56] = (int(m['nsse']) if proto['vararg'] else rng_words[5] & 0xffffffffffffff00 | 0x55).to_bytes(8, 'little')
     img[56:64] = stack.to_bytes(8, 'little')
     for k in range(6):
